@@ -11,11 +11,10 @@ import (
 	"golang.org/x/tools/go/ssa"
 )
 
+// undoRec: addr != nil restores *addr = old; addr == nil runs the closure old.(func()).
 type undoRec struct {
 	addr *Value
 	old  Value
-	m    *Map // if non-nil: map undo
-	mfn  func()
 }
 
 type pathEnd struct {
@@ -27,6 +26,11 @@ type goPanic struct {
 	kind string // nil-deref, index, slice, type-assert, explicit, div-zero, nil-map
 	msg  string
 	site string
+}
+
+type methodKey struct {
+	t types.Type
+	m *types.Func
 }
 
 type fnInfo struct {
@@ -113,6 +117,14 @@ type Engine struct {
 	curIntr                                             string
 	asciiProven                                         map[int]bool
 	fnStubs                                             map[string]string
+	envArena                                            []Value
+	publish                                             func([]int8)
+	fsRoot                                              string
+	vfsOnlyPrefixes                                     []string
+	globOrder                                           func([]string) []string
+	methodCache                                         map[methodKey]*ssa.Function
+	MaxStepsCompleted                                   int
+	visArena                                            []int32
 	excl                                                map[int]map[uint64]bool
 	simpMemo                                            map[int]*Term
 	SimplifiedAway                                      int
@@ -123,11 +135,12 @@ func NewEngine(prog *ssa.Program, solver *Solver) *Engine {
 		prog: prog, ts: NewTermStore(), solver: solver,
 		globals: map[*ssa.Global]*Value{}, infos: map[*ssa.Function]*fnInfo{},
 		consts: map[*ssa.Const]Value{}, intr: map[string]func(*Engine, *frame, []Value) Value{},
-		varCount: map[string]int{}, reached: map[string]int{}, fnsRun: map[string]bool{},
+		varCount: map[string]int{}, reached: map[string]int{}, fnsRun: map[string]bool{}, methodCache: map[methodKey]*ssa.Function{},
 		budget: 200000, maxDepth: 400,
 	}
 	registerIntrinsics(e)
 	registerIntrinsics2(e)
+	registerIntrinsics3(e)
 	return e
 }
 
@@ -222,11 +235,36 @@ func (e *Engine) store(addr *Value, v Value) {
 	}
 }
 
+// storeNoLog is store without undo records (same in-place semantics for structs and arrays,
+// so that field addresses taken earlier stay valid).
+func storeNoLog(addr *Value, v Value) {
+	switch nv := v.(type) {
+	case Struct:
+		if old, ok := (*addr).(Struct); ok && len(old) == len(nv) {
+			for i := range old {
+				storeNoLog(&old[i], nv[i])
+			}
+			return
+		}
+		*addr = copyVal(v)
+	case Array:
+		if old, ok := (*addr).(Array); ok && len(old) == len(nv) {
+			for i := range old {
+				storeNoLog(&old[i], nv[i])
+			}
+			return
+		}
+		*addr = copyVal(v)
+	default:
+		*addr = v
+	}
+}
+
 func (e *Engine) rollback(to int) {
 	for i := len(e.undo) - 1; i >= to; i-- {
 		u := e.undo[i]
-		if u.mfn != nil {
-			u.mfn()
+		if u.addr == nil {
+			u.old.(func())()
 		} else {
 			*u.addr = u.old
 		}
@@ -587,11 +625,45 @@ func (e *Engine) callFunction(caller *frame, fn *ssa.Function, args []Value, env
 	e.fnsRun[name] = true
 	e.depth++
 	if e.depth > e.maxDepth {
-		panic(goPanic{kind: "stack-overflow", msg: "recursion depth bound exceeded in " + name})
+		if os.Getenv("VERIF_DEBUG") != "" {
+			for i, f := range e.stack {
+				if i < 30 {
+					fmt.Println("  stack", i, f.fn.String())
+				}
+			}
+		}
+		// name the function that recurses: the one with the most activations on the stack
+		cnt := map[string]int{}
+		best := name
+		for _, f := range e.stack {
+			n := f.fn.String()
+			cnt[n]++
+			if cnt[n] > cnt[best] {
+				best = n
+			}
+		}
+		panic(goPanic{kind: "stack-overflow", msg: "unbounded recursion in " + shortFn(best)})
 	}
 	defer func() { e.depth-- }()
 	fi := e.info(fn)
-	fr := &frame{fn: fn, info: fi, env: make([]Value, fi.n)}
+	envBase, visBase := len(e.envArena), len(e.visArena)
+	if envBase+fi.n > cap(e.envArena) {
+		// calls are LIFO: frames carve their register files out of one arena. When the arena
+		// has to grow, older frames keep their (still valid) slices of the old array.
+		na := make([]Value, envBase, 2*cap(e.envArena)+fi.n+4096)
+		e.envArena = na
+	}
+	e.envArena = e.envArena[:envBase+fi.n]
+	env0 := e.envArena[envBase : envBase+fi.n : envBase+fi.n]
+	clear(env0)
+	nb := len(fn.Blocks)
+	if visBase+nb > cap(e.visArena) {
+		e.visArena = make([]int32, visBase, 2*cap(e.visArena)+nb+4096)
+	}
+	e.visArena = e.visArena[:visBase+nb]
+	vis0 := e.visArena[visBase : visBase+nb : visBase+nb]
+	clear(vis0)
+	fr := &frame{fn: fn, info: fi, env: env0, visits: vis0}
 	for i, p := range fn.Params {
 		fr.env[fi.idx[p]] = args[i]
 	}
@@ -604,10 +676,17 @@ func (e *Engine) callFunction(caller *frame, fn *ssa.Function, args []Value, env
 		fr.env[fi.idx[l]] = p
 	}
 	fr.block = fn.Blocks[0]
-	fr.visits = make([]int32, len(fn.Blocks))
 	e.stack = append(e.stack, fr)
 	sp := len(e.stack)
-	defer func() { e.stack = e.stack[:sp-1] }()
+	defer func() {
+		e.stack = e.stack[:sp-1]
+		if len(e.envArena) >= envBase {
+			e.envArena = e.envArena[:envBase]
+		}
+		if len(e.visArena) >= visBase {
+			e.visArena = e.visArena[:visBase]
+		}
+	}()
 	e.run(fr)
 	return fr.result
 }
@@ -671,7 +750,12 @@ func (e *Engine) prepareCall(fr *frame, c *ssa.CallCommon) (Value, []Value) {
 		if recv.t == nil {
 			panic(goPanic{kind: "nil-deref", msg: "method call on nil interface: " + c.Method.Name()})
 		}
-		m := e.prog.LookupMethod(recv.t, c.Method.Pkg(), c.Method.Name())
+		mk := methodKey{recv.t, c.Method}
+		m, cached := e.methodCache[mk]
+		if !cached {
+			m = e.prog.LookupMethod(recv.t, c.Method.Pkg(), c.Method.Name())
+			e.methodCache[mk] = m
+		}
 		if m == nil {
 			panic(fmt.Sprintf("no method %s on %s", c.Method.Name(), recv.t))
 		}
@@ -734,7 +818,13 @@ func (e *Engine) visit(fr *frame, in ssa.Instruction) bool {
 		if addr == nil {
 			panic(goPanic{kind: "nil-deref", msg: "store through nil pointer", site: e.site(fr, in)})
 		}
-		e.store(addr, fr.get(e, in.Val))
+		if _, ok := in.Addr.(*ssa.Alloc); ok {
+			// a cell created by this activation: unreachable after the path is rolled
+			// back, so the write needs no undo record
+			storeNoLog(addr, fr.get(e, in.Val))
+		} else {
+			e.store(addr, fr.get(e, in.Val))
+		}
 	case *ssa.If:
 		c := fr.get(e, in.Cond)
 		var b bool
